@@ -187,6 +187,73 @@ fn run(ctx: &mut Ctx) {
             ctx.nontrivial(d.0);
         }
     });
+    // ---- 2b. history independence: event A, then event B with the same block and the same first-wire length but other
+    // wires longer / shorter; B's result must equal B evaluated in a thread without history, and have B's lengths
+    let n = ctx.tier.pick(300, 8000);
+    ctx.cases("wire-history", n, |ctx, i, rng| {
+        ctx.eval();
+        let occ = occupancy(rng, [1u64, 4, 5][(i % 3) as usize]);
+        let len = 40 + rng.usize(100);
+        let (wa, _) = random_hits(&m, rng, &occ, 2, len, 0.0, true);
+        if wa.is_empty() {
+            return;
+        }
+        // B: same wires; the first wire of every block keeps its length, the others grow by 5..60 samples and get a late pulse
+        let mut wb = wa.clone();
+        let first_of_block: Vec<usize> = vh::contiguous_ranges(&{
+            let mut arr: [Option<Vec<f64>>; 256] = [(); 256].map(|_| None);
+            for (w, s) in &wa {
+                arr[*w] = Some(s.clone());
+            }
+            arr
+        })
+        .iter()
+        .map(|r| r.0)
+        .collect();
+        let grow = 5 + rng.usize(56);
+        for (w, s) in wb.iter_mut() {
+            if !first_of_block.contains(w) {
+                let k = s.len() + rng.usize(grow.saturating_sub(20).max(1));
+                s.extend(vec![0.0; grow]);
+                if rng.chance(0.3) {
+                    for (j, r) in m.wr.iter().enumerate() {
+                        if k + j < s.len() {
+                            s[k + j] += (500.0 * r).round();
+                        }
+                    }
+                }
+            }
+        }
+        let arr_of = |ws: &Wires| {
+            let mut arr: [Option<Vec<f64>>; 256] = [(); 256].map(|_| None);
+            for (w, s) in ws {
+                arr[*w] = Some(s.clone());
+            }
+            arr
+        };
+        let _ = guard(|| vh::wire_deconvolution(&arr_of(&wa)));
+        let in_history = guard(|| vh::wire_deconvolution(&arr_of(&wb)));
+        let wb2 = wb.clone();
+        let fresh = fresh_thread(move || {
+            let mut arr: [Option<Vec<f64>>; 256] = [(); 256].map(|_| None);
+            for (w, s) in &wb2 {
+                arr[*w] = Some(s.clone());
+            }
+            vh::wire_deconvolution(&arr)
+        });
+        match (in_history, fresh) {
+            (Ok(a), Ok(b)) => {
+                let same = a.len() == b.len() && a.iter().zip(&b).all(|(x, y)| x.0 == y.0 && bits(&x.1) == bits(&y.1));
+                let lens_ok = a.iter().all(|(w, v)| wb.iter().find(|x| x.0 == *w).map(|x| x.1.len()) == Some(v.len()));
+                if !same || !lens_ok {
+                    ctx.violation(if !same { "wire deconvolution depends on what was deconvolved before (differs from a fresh thread)" } else { "wire deconvolution: output length differs from the channel's input length" }, format!("{} wires, first-of-block lengths unchanged, others grown by {}", wb.len(), grow), json!({"wires_a": wa.iter().map(|(w, s)| json!([w, s.len()])).collect::<Vec<_>>(), "wires_b": wb.iter().map(|(w, s)| json!([w, s.len()])).collect::<Vec<_>>()}));
+                } else {
+                    ctx.count("wire deconvolutions identical with and without call history");
+                }
+            }
+            (Err(p), _) | (_, Err(p)) => ctx.panic_violation("wire deconvolution", &p, json!({})),
+        }
+    });
     // ---- 3. isolated pulse recovery on every wire
     let reps = ctx.tier.pick(2, 40);
     ctx.cases("wire-pulse", 256 * reps, |ctx, i, rng| {
@@ -239,9 +306,11 @@ fn run(ctx: &mut Ctx) {
             let (w, p, _) = sim_event(&m, rng, noise);
             (w, p)
         } else {
-            let occ = occupancy(rng, 5);
-            let nh = 2 + rng.usize(8);
-            random_hits(&m, rng, &occ, nh, 300, 1.0, true)
+            let occ = occupancy(rng, if i % 4 == 1 { 4 } else { 5 });
+            let nh = 1 + rng.usize(8);
+            // half of these events are noise-free: quiet channels next to a clean pulse
+            let noise = if i % 8 < 4 { 0.0 } else { 1.0 };
+            random_hits(&m, rng, &occ, nh, 300, noise, true)
         };
         let base = match guard(|| vh::main_event_from_signals(wires.clone(), pads.clone(), 0).avalanches()) {
             Ok(b) => b,
@@ -254,7 +323,7 @@ fn run(ctx: &mut Ctx) {
             ctx.count("scaling: events without avalanches (skipped)");
             return;
         }
-        for k in [-20i32, -3, 1, 2, 7, 40] {
+        for k in [-40i32, -20, -10, -3, 1, 2, 7, 10, 20, 40] {
             ctx.eval();
             let f = 2f64.powi(k);
             let (w2, p2) = scale(&wires, &pads, f);
